@@ -379,6 +379,15 @@ def rule_mgr(ctx):
         if isinstance(v, ast.Constant) and not v.value:
             ctx.ob("C03.MGR", r, "authenticate: constant refusal", True)
             continue
+        if isinstance(v, ast.Constant) and v.value is True:
+            def _is_eq(x):
+                return isinstance(x, ast.Compare) and len(x.ops) == 1 and isinstance(x.ops[0], ast.Eq) and {src(x.left), src(x.comparators[0])} == {f"{params[1]}.password", params[2]}
+            g = all_guards(p, r, au)
+            ok = any(pol and _is_eq(t) for t, pol in g) or any((not pol) and isinstance(t, ast.Compare) and isinstance(t.ops[0], ast.NotEq)
+                                                                and {src(t.left), src(t.comparators[0])} == {f"{params[1]}.password", params[2]} for t, pol in g)
+            ctx.ob("C03.MGR", r, "authenticate: `return True` only where stored and supplied password were found equal", ok,
+                   "authenticate returns True on a path where the passwords were not compared equal", construct="authenticate:return True unguarded")
+            continue
         parts = v.values if isinstance(v, ast.BoolOp) and isinstance(v.op, ast.And) else [v]
 
         def is_eq(x):
